@@ -212,6 +212,34 @@ def validate_trace(module_dir, module, cfg, trace_path, timeout=600, heap="3g", 
     return r.rc == 0, r
 
 
+def validate_trace_by_run(module_dir, module, cfg, events, wd, tag, chunk=1500, heap="3g"):
+    """Trace validation of a long event log whose runs (field `run`) are independent of each other: whole runs are
+    packed into chunks of about `chunk` events and each chunk is validated separately (the spec's state grows with
+    the log, so one long log is quadratic).  Returns (all accepted, [TlcResult])."""
+    order, by_run = [], {}
+    for e in events:
+        if e["run"] not in by_run:
+            by_run[e["run"]] = []
+            order.append(e["run"])
+        by_run[e["run"]].append(e)
+    chunks, cur = [], []
+    for r in order:
+        if cur and len(cur) + len(by_run[r]) > chunk:
+            chunks.append(cur)
+            cur = []
+        cur = cur + by_run[r]
+    if cur:
+        chunks.append(cur)
+    ok_all, results = True, []
+    for i, c in enumerate(chunks):
+        p = os.path.join(wd, "trace_%s_%d.ndjson" % (tag, i))
+        write_ndjson(p, c)
+        ok, r = validate_trace(module_dir, module, cfg, p, heap=heap)
+        results.append(r)
+        ok_all = ok_all and ok
+    return ok_all, results
+
+
 # ------------------------------------------------------------------ cargo / binaries -----------
 
 _built = {}
